@@ -183,6 +183,13 @@ void harness(void)
         return;
     }
     if (!usable || len > DMAXLIM) return;
+    /* C03 as its own obligation (added after seed C03b: the C08/C03 clause below is vacuous when the
+     * count equals dmax): the delegate's count is the witness on success, index 0 on failure */
+    /* (sizes above this family's own limit RSIZE_MAX_WSTR are rejected before dest is touched: C05) */
+    if ((IN.bos_known || (dmax <= RSIZE_MAX_WSTR && len <= RSIZE_MAX_WSTR)) && (rc != EOK || (g_calls_conv == 1 && !g_fail))) {
+        size_t w = (rc == EOK) ? g_ret : 0;
+        CHECK(w < dmax && dbuf[w * (size_t)(w < dmax)] == 0, "C03: no terminator in dest[0..dmax) after return");
+    }
     if (g_calls_conv == 1 && !g_fail) {
         size_t r = g_ret;
         if (rc == EOK) {
